@@ -1392,7 +1392,11 @@ class PackBasedObjectStore(PackCapableObjectStore, PackedObjectContainer):
         return count
 
     def __iter__(self) -> Iterator[ObjectID]:
-        """Iterate over the SHAs that are present in this store."""
+        """Iterate over the SHAs that are present in this store.
+
+        An object that is stored more than once (loose and packed, or in
+        several packs) may be yielded more than once.
+        """
         self._update_pack_cache()
         for pack in self._iter_cached_packs():
             try:
@@ -1400,6 +1404,20 @@ class PackBasedObjectStore(PackCapableObjectStore, PackedObjectContainer):
             except PackFileDisappeared as exc:
                 self._evict_pack(exc.obj)
         yield from self._iter_loose_objects()
+        # A concurrent repack may, since the pack directory was scanned,
+        # have moved loose objects into a new pack or replaced the packs
+        # listed above by a new one. New packs are in place before anything
+        # is removed, so also listing the packs that have appeared in the
+        # meantime makes sure no object that was there throughout is skipped.
+        listed = set(self._pack_cache)
+        self._update_pack_cache()
+        for name, pack in list(self._pack_cache.items()):
+            if name in listed:
+                continue
+            try:
+                yield from pack
+            except PackFileDisappeared as exc:
+                self._evict_pack(exc.obj)
         yield from self._iter_alternate_objects()
 
     def contains_loose(self, sha: ObjectID) -> bool:
